@@ -73,7 +73,11 @@ func TypedDesc(name string, seed uint64, n int) *astits.Descriptor {
 		}
 	case "ISO639":
 		d.Tag = astits.DescriptorTagISO639LanguageAndAudioType
-		d.ISO639LanguageAndAudioType = &astits.DescriptorISO639LanguageAndAudioType{Language: lang(r), Type: uint8(r.Intn(4))}
+		l := lang(r)
+		if r.Chance(1, 3) {
+			l = l[:2] // "in some actual cases the language is described in only 2 bytes"; the writer pads
+		}
+		d.ISO639LanguageAndAudioType = &astits.DescriptorISO639LanguageAndAudioType{Language: l, Type: uint8(r.Intn(4))}
 	case "LocalTimeOffset":
 		d.Tag = astits.DescriptorTagLocalTimeOffset
 		l := &astits.DescriptorLocalTimeOffset{}
